@@ -89,6 +89,23 @@ def gen(rng, tier):
                     continue
                 j, _ = txgen.rand_tx(rng, kind=kind, chain=rng.choice([1, 5, 2 ** 64 - 1]))
                 cases.append(Case("tx.encode %s %064x %064x %d" % (hx(j), a, b, rng.randrange(2)), tags=("chosen-signature", "width:%d" % w)))
+    # chosen signatures with a zero byte at each position 0..31 of r / s
+    for pos in range(32):
+        b = bytearray(rng.getrandbits(8) | 1 for _ in range(32))
+        b[0] = b[0] & 0x7f | 1
+        b[pos] = 0
+        if pos == 0:
+            b[1] |= 1
+        v = int.from_bytes(b, "big")
+        o = rng.randrange(1, N // 2)
+        kind = ("legacy", "eip2930", "eip1559")[pos % 3]
+        j, _ = txgen.rand_tx(rng, kind=kind, chain=1)
+        a_, b_ = (v, o) if pos % 2 else (o, v % (N // 2) or 1)
+        if pos % 2 == 0:
+            bb = bytearray((v % (N // 2)).to_bytes(32, "big"))
+            bb[pos] = 0
+            b_ = int.from_bytes(bb, "big") or 1
+        cases.append(Case("tx.encode %s %064x %064x %d" % (hx(j), a_, b_, rng.randrange(2)), tags=("chosen-signature", "zero-byte-at:%d" % pos)))
     return cases
 
 
